@@ -9,6 +9,7 @@ CONSTANTS
   Ops <- MC_OpsOdd
   ReqVers <- MC_VOdd
   Lazies <- MC_Eager
+  Dev = {}
   Known <- MC_KnownDesign
 CHECK_DEADLOCK FALSE
 INVARIANT ImplMeetsProperty
